@@ -550,6 +550,33 @@ fn gen_c16(tier: &str, rng: &mut Rng) -> Vec<Case> {
             cases.push(c2);
         }
     }
+    // ordered lists whose markers differ in length (9 -> 10, 99 -> 100, ...): every item is padded
+    // to the display width of the widest marker and its content wrapped to what is left
+    let n2 = if tier == "thorough" { 20000 } else { 1000 };
+    for gi in 0..n2 {
+        let custom = rand_custom(rng);
+        let cfg = Cfg { deco: 4, custom: custom.clone(), ..Default::default() };
+        let w = rng.range(8, 80);
+        let o = GenOpts { tables: 0, links: false, ids: false, imgs: false, sup: false, strike: false, max_blocks: 2, max_depth: 1, ..Default::default() };
+        let start = *rng.pick(&[8i64, 9, 98, 99, 999, -1, -10, 1]);
+        let nitems = rng.range(2, 3);
+        let inners: Vec<String> = (0..nitems).map(|_| gen_doc(rng, o.clone()).0).collect();
+        let prefixes: Vec<String> = (0..nitems).map(|k| format!("{}{}", start + k as i64, custom[15])).collect();
+        let maxw = prefixes.iter().map(|p| str_width(p)).max().unwrap();
+        let outer = format!("<ol start=\"{}\">{}</ol>", start, inners.iter().map(|x| format!("<li>{}</li>", x)).collect::<String>());
+        let mut strs = vec![maxw.to_string()];
+        strs.extend(prefixes.iter().cloned());
+        let id = cases.len();
+        let mut c1 = mk_case(id, 0, cfg.clone(), w, outer.into_bytes(), Some(0), Meta::G { role: "outer_items", strs, nums: vec![] }, "ol_items");
+        c1.group = 5_000_000 + gi;
+        cases.push(c1);
+        for inner in inners {
+            let id = cases.len();
+            let mut c2 = mk_case(id, 0, cfg.clone(), w.saturating_sub(maxw), inner.into_bytes(), Some(0), g("inner"), "ol_items");
+            c2.group = 5_000_000 + gi;
+            cases.push(c2);
+        }
+    }
     // the trivial decorator produces nothing but text, whitespace and borders: C03's direct check
     cases
 }
@@ -601,6 +628,46 @@ fn check_c16(cases: &[Case], results: &[Option<RunResult>]) -> Vec<Violation> {
         }
     }
     for grp in groups(cases) {
+        if grp.len() >= 3 && cases[grp[0]].meta.role() == "outer_items" {
+            let a = grp[0];
+            let ra = match &results[a] {
+                Some(x) => x,
+                None => continue,
+            };
+            let outer = match out_lines(&ra.outcome) {
+                Some(l) => l,
+                None => continue,
+            };
+            let strs = cases[a].meta.strs();
+            let maxw: usize = strs[0].parse().unwrap();
+            let mut expect: Vec<String> = Vec::new();
+            let mut ok = true;
+            for (k, &b) in grp[1..].iter().enumerate() {
+                let inner = match results[b].as_ref().and_then(|r| out_lines(&r.outcome)) {
+                    Some(l) => l,
+                    None => {
+                        ok = false;
+                        break;
+                    }
+                };
+                let pf = &strs[1 + k];
+                let padded = format!("{}{}", pf, " ".repeat(maxw - str_width(pf)));
+                for (j, l) in inner.iter().enumerate() {
+                    expect.push(format!("{}{}", if j == 0 { padded.clone() } else { " ".repeat(maxw) }, l));
+                }
+                if inner.is_empty() {
+                    expect.push(padded);
+                }
+            }
+            if !ok {
+                continue;
+            }
+            let norm = |v: &Vec<String>| v.iter().map(|l| l.trim_end().to_string()).collect::<Vec<_>>();
+            if norm(&expect) != norm(&outer) {
+                v.push(viol(a, "ordered-list items are not padded to the widest marker's display width", format!("markers {:?}: expected {:?} got {:?}", &strs[1..], expect, outer), None));
+            }
+            continue;
+        }
         if grp.len() != 2 {
             continue;
         }
